@@ -23,6 +23,22 @@ func init() { caseKinds["ctxiso"] = ctxCase }
 
 type plainKey struct{ n int }
 
+// context keys of many dynamic types (a key can be any comparable value)
+var (
+	keyInt      int
+	keyString   = "s"
+	keyStruct   = plainKey{9}
+	keyChan     = make(chan int)
+	pointerKeys = []interface{}{&keyInt, &keyString, &keyStruct, new(float64), new(interface{}), new(*int)}
+	scalarKeys  = []interface{}{int(7), int64(7), uint8(7), 3.5, true, 'x', [2]int{1, 2}, [1]string{"a"}, uintptr(9)}
+	otherKeys   = []interface{}{keyChan, error(ctxKeyErr{}), fmt.Stringer(ctxKeyErr{})}
+)
+
+type ctxKeyErr struct{}
+
+func (ctxKeyErr) Error() string  { return "k" }
+func (ctxKeyErr) String() string { return "k" }
+
 type ctxProbe struct {
 	mu       sync.Mutex
 	ran      bool
@@ -51,6 +67,21 @@ func (p *ctxProbe) inspect(ctx context.Context, final bool) {
 	}
 	if ctx.Value(plainKey{1}) != nil {
 		p.fail("plain-struct-key-hidden")
+	}
+	for _, k := range pointerKeys {
+		if ctx.Value(k) != nil {
+			p.fail("pointer-keys-hidden")
+		}
+	}
+	for _, k := range scalarKeys {
+		if ctx.Value(k) != nil {
+			p.fail("scalar-and-array-keys-hidden")
+		}
+	}
+	for _, k := range otherKeys {
+		if ctx.Value(k) != nil {
+			p.fail("interface-and-channel-keys-hidden")
+		}
 	}
 	if md, ok := metadata.FromOutgoingContext(ctx); ok && len(md) > 0 {
 		p.fail("outgoing-md-not-outgoing-in-handler")
@@ -194,6 +225,11 @@ func ctxCase(c map[string]interface{}) (out map[string]interface{}) {
 	doCall := func(base context.Context) {
 		ctx := context.WithValue(base, "plain-string", "ps")
 		ctx = context.WithValue(ctx, plainKey{1}, "pk")
+		for i, ks := range [][]interface{}{pointerKeys, scalarKeys, otherKeys} {
+			for j, k := range ks {
+				ctx = context.WithValue(ctx, k, fmt.Sprintf("v%d.%d", i, j))
+			}
+		}
 		p.callerMD = metadata.Pairs("out-key", "o1", "out-key", "o2")
 		ctx = metadata.NewOutgoingContext(ctx, p.callerMD)
 		var cancel context.CancelFunc
